@@ -324,6 +324,7 @@ def run(tier):
     dprog = ir.Program(c03.PORTABLE + list(c03.ACCEL), cdb.HOST)
     rep.add_stats(dprog)
     c03.g1_g2(dprog, rep, {up: dprog.unit(up).enums for up in c03.PORTABLE})
+    c03.g4_siblings(dprog, rep)      # a key object has one layout: the branch that made it is the branch that uses and frees it
     rep.require_min("L1-writers", 6)
     rep.require_min("L4-position", 5)
     rep.require_min("G2-select", 4)
